@@ -496,6 +496,28 @@ pub fn flatten_oracle(o: &Outcome, s: &Scen) -> Option<(String, serde_json::Valu
   None
 }
 
+/// C12 (thread part, no terminal and no unsubscribe in the scripts): the probe
+/// subscribed before the threads started receives every item whose next()
+/// returned, exactly once
+pub fn first_probe_receives_all(o: &Outcome) -> Option<(String, serde_json::Value)> {
+  let got = notes(&o.evs, 1);
+  for e in &o.evs {
+    if let K::Mark("next_call", v) = e.k {
+      if mark_seq(&o.evs, "next_ret", v).is_none() {
+        continue;
+      }
+      let n = got.iter().filter(|n| matches!(n, N::Next(x) if x.int() == v)).count();
+      if n != 1 {
+        return Some((
+          if n == 0 { "missed_item" } else { "duplicate_delivery" }.into(),
+          json!({"why": format!("the subscriber present from the start received item {} {} times although next({}) returned and nothing terminated or unsubscribed", v, n, v)}),
+        ));
+      }
+    }
+  }
+  None
+}
+
 /// C12: peek at quiescence is the last item of the common order; a late
 /// subscriber sees [v] ++ suffix with v the element right before that suffix
 pub fn behavior_oracle(o: &Outcome) -> Option<(String, serde_json::Value)> {
